@@ -16,7 +16,8 @@ EXPLANATION = ("StochasticNetwork: by enumeration of every path through plugin, 
                "considers `ev is not None and ev.fully_charged`, only when enabled and while the queue is non-empty; the simulator calls "
                "network.unplug(station, session) on every path of the Unplug branch (also for EVs that never got a station) and "
                "post_charging_update() once per period after the rates were stored and before the period counter advances; the only source "
-               "of randomness is random.choice of the global random module.")
+               "of randomness is random.choice of the global random module; every dereference of a station's occupant (`.ev`) in the "
+               "stochastic network is None-guarded on every path (the unplug event of an EV that left early finds its station empty).")
 NOT_DECIDED = ("the global invariants over whole histories (they follow from the transition-local facts by induction, argued in DESIGN.md, "
                "not mechanised); the distribution of the random choice")
 
